@@ -25,6 +25,7 @@ RW = [("extract_simplifier", "Extract", 1), ("concat_simplifier", "Concat", 2), 
 def tasks(tier, seed=0):
     out = [task(A, "ob_handle_annotations", "annos._handle_annotations/clauses", ["C07"], tier=tier),
            task(A, "ob_op_wrapper", "annos.op._op/meaning+clauses", ["C07", "C01"], tier=tier),
+           *[task(A, "ob_op_wrapper", f"annos.op._op[{n}]/meaning+clauses", ["C07", "C01"], tier=tier, arity=k) for n, k in (("unary", 1), ("variadic", 0))],
            task("vf.contracts.basenew", "ob_base_new_table", "hashcons.Base.__new__/table-discipline", ["C06", "C05", "C07"], tier=tier),
            task(A, "ob_algo_simplify", "annos.algorithm.simplify/meaning+clauses", ["C07", "C09"], tier=tier),
            task(A, "ob_algo_simplify", "annos.algorithm.simplify[conjunction]/meaning+clauses", ["C07", "C09"], tier=tier, shape="and"),
